@@ -316,7 +316,8 @@ class TrajectoryCalc:
             zero_finding_error = math.fabs(height - height_at_zero)
             if zero_finding_error > _cZeroFindingAccuracy:
                 # Adjust barrel elevation to close height at zero distance
-                self.barrel_elevation -= (height - height_at_zero) / zero_distance
+                # (the height at a fixed distance changes by distance / cos^2 per radian of elevation)
+                self.barrel_elevation -= (height - height_at_zero) / (zero_distance * (1.0 + look_tangent * look_tangent))
             else:  # last barrel_elevation hit zero!
                 break
             iterations_count += 1
